@@ -85,6 +85,23 @@ def cases(tier, seed, args):
         sc['opts'] = dict(covariance_norm=['trace', False, 'eigenvalue'][i % 3], eigenvalue_floor=[0.05, 0.3, 0.15][(i // 3) % 3],
                           affiliation_eps=1e-10, hermitize=True)
         out.append(dict(t='emtrace', **sc))
+    # more than 4096 observations in one M-step: the saliency is zero except on a few dozen observations (head, block
+    # boundaries, tail); only those carry weight and only those are recorded
+    for i in range(2 if q else 8):
+        sc = mmd.scenario(rng, ['cacgmm', 'cwmm', 'gmm', 'vmfmm'][i % 4], tier)
+        sc.update(regime='regular', init='soft', dtype='float64', iterations=1, saliency=True, K=2, D=2 + i % 2, N=[6000, 4196, 9000, 17000][i % 4], L=[],
+                  wca=(-1,), wca_type='tuple', aligner=False, sam=False, support=True)
+        sc['opts'] = {k: v for k, v in sc['opts'].items() if k not in ('inline_permutation_alignment',)}
+        sc.pop('wca_pos', None)
+        out.append(dict(t='emtrace', **sc))
+    # embeddings of the integration models handed over as transposed views / Fortran-ordered arrays (same values)
+    for i in range(4 if q else 16):
+        kind = ['vmfcacgmm', 'gcacgmm'][i % 2]
+        sc = mmd.scenario(rng, kind, tier)
+        sc.update(regime='regular', init='soft', dtype='float64', iterations=1 + i % 2, saliency=bool(i % 2), K=2, D=3, N=int(rng.integers(6, 10)), L=[2 + i % 2],
+                  aligner=False, sam=False, emb_layout=['view', 'F'][(i // 2) % 2])
+        sc['opts'] = {k: v for k, v in sc['opts'].items() if k not in ('inline_permutation_alignment',)}
+        out.append(dict(t='emtrace', **sc))
     for i in range(14 if q else 140):
         out.append(dict(t='single', dist=['gauss_full', 'gauss_diagonal', 'gauss_spherical', 'watson', 'vmf', 'cacg', 'bingham'][i % 7],
                         L=[int(rng.integers(1, 3))] * int(rng.integers(0, 2)), D=int(rng.integers(2, 4)), N=int(rng.integers(6, 14)),
@@ -157,6 +174,19 @@ def _emtrace(case):
     if case['saliency']:
         sal = rng.integers(1, 4, size=(*L, N)).astype(float) * rng.choice([1.0, 0.5])
         opts['saliency'] = sal
+    sel = None
+    if case.get('support'):
+        idx = set(range(6)) | set(range(N - 8, N)) | {N // 2, N // 3}
+        for b in (1024, 4096, 8192, 16384):
+            idx |= {b - 2, b - 1, b, b + 1}
+        sel = np.array(sorted(i for i in idx if 0 <= i < N))
+        keep = np.zeros(N, dtype=bool)
+        keep[sel] = True
+        sal = np.where(keep, sal, 0.0)
+        opts['saliency'] = sal
+    if case.get('emb_layout') and 'emb' in data:
+        e0 = np.ascontiguousarray(data['emb'])
+        data['emb'] = np.asfortranarray(e0) if case['emb_layout'] == 'F' else np.ascontiguousarray(np.swapaxes(e0, 0, 1)).swapaxes(0, 1)
     if case.get('sam'):
         sam = rng.random((*L, K, N)) < 0.75
         sam[..., 0] = True
@@ -197,10 +227,13 @@ def _emtrace(case):
         if exc in mmd.EXPLICIT:
             return []
         return recs
-    z, zc = _obs(kind, data)
-    full = [*L, K, N]
+    cut = (lambda a: a) if sel is None else (lambda a: np.asarray(a)[..., sel])
+    z, zc = _obs(kind, data if sel is None else {k: np.asarray(v)[..., sel, :] for k, v in data.items()})
+    full = [*L, K, N if sel is None else len(sel)]
     comp = COMP[kind]
-    base = dict(full=full, z=z, zcplx=zc, has_sal=sal is not None, sal=flat(sal) if sal is not None else dict(shape=[], data=[]),
+    if sel is not None:
+        fp += ';support'
+    base = dict(full=full, z=z, zcplx=zc, has_sal=sal is not None, sal=flat(cut(sal)) if sal is not None else dict(shape=[], data=[]),
                 comp=comp, **_common(case, kind, opts))
     prev_model = None
     last_e = None
@@ -220,7 +253,7 @@ def _emtrace(case):
                                             full=[*L, K, N]))
         if e == 'estep':
             last_e = f
-            if comp == 'cacg' and kind == 'cacgmm' and f['qf'] is not None and f['model'] is not None and len(recs) < 6:
+            if comp == 'cacg' and kind == 'cacgmm' and f['qf'] is not None and f['model'] is not None and len(recs) < 6 and sel is None:
                 recs.append(dict(kind='qform', exc='', qf=flat(f['qf']), fields=mmd.raw_fields(kind, f['model']), **base,
                                  fp=fp + ';qform', key=key + f':q{j}'))
         if e == 'align' and last_e is not None:
@@ -229,8 +262,8 @@ def _emtrace(case):
             mi += 1
             if mi not in pick:
                 continue
-            rec = dict(kind='mstep', exc='', aff=flat(f['aff']), has_qf=f['qf'] is not None,
-                       qf=flat(f['qf']) if f['qf'] is not None else dict(shape=[], data=[]),
+            rec = dict(kind='mstep', exc='', aff=flat(cut(f['aff'])), has_qf=f['qf'] is not None,
+                       qf=flat(cut(f['qf'])) if f['qf'] is not None else dict(shape=[], data=[]),
                        fields=mmd.raw_fields(kind, f['model']), gtype='', glead=[], gshared=False, watson_ratio=[],
                        **base, fp=fp + ';mstep', key=key + f':m{mi}')
             if comp == 'gaussian':
